@@ -108,6 +108,8 @@ class Body(walk_gen.Body):
             n = 1
             if not full and walk_gen.max_use(ch) > 1 and rng.random() < self.p_rep:
                 n = min(walk_gen.max_use(ch), rng.choice([2, 2, 3]))
+            if self.loop_twice and ch.is_loop() and not wrapper and not full:
+                n = 2
             for _ in range(n):
                 if ch.is_segment():
                     self.seg(ch, hl_parent)
